@@ -16,7 +16,7 @@ rm -rf "$vs"; git -C /repo worktree prune
 git -C /repo worktree add -q --detach "$vs" HEAD || exit 2
 git -C "$vs" apply "$dst/patch.diff" || { echo "PATCH DOES NOT APPLY"; git -C /repo worktree remove --force "$vs"; exit 2; }
 for d in $demos; do mkdir -p "$vs/$(dirname $d)" "$dst/demo/$(dirname $d)"; cp "$awt/$d" "$vs/$d"; cp "$awt/$d" "$dst/demo/$d"; done
-E="env -u GOTOOLCHAIN GOFLAGS=-mod=mod GOPROXY=off"
+E="env -u GOTOOLCHAIN -u GOSUMDB GOFLAGS=-mod=mod GOPROXY=off"
 pkgs=$(for d in $demos; do echo "./$(dirname $d)/"; done | sort -u)
 ( cd "$vs" && $E go build ./... ) || { echo "DOES NOT COMPILE"; git -C /repo worktree remove --force "$vs"; exit 2; }
 # pinned suite with the change (demo files temporarily out of the way)
